@@ -18,7 +18,7 @@ def run(ctx):
         out += res
     out.append(MM.same_relation_rule(ctx.mir("default")["ts_rs"], "C11", rule="C11.R11"))
     out.append(F.output_path_rule(ctx.mir("default")["ts_rs_macros"], "C11"))
-    out.append(T.export_test_rule(ctx.syn, "C11"))
+    out.append(T.export_test_rule(ctx.syn, "C11", crate=ctx.mir("default")["ts_rs_macros"]))
     out.append(T.deps_emission_rule(ctx.syn, ctx.mir("default")["ts_rs_macros"], "C11", "C11.R6"))
     out.append(T.generics_visit_rule(ctx.syn, "C11", "C11.R7"))
     out.append(T.impl_assembly_rule(ctx.syn, "C11", "C11.R9"))
